@@ -16,7 +16,10 @@ TSpec == TInit /\ [][TNext]_l
 
 Step == Trace[l - 1]
 Clz(r)  == IF r.err THEN {} ELSE ViolatedClauses(r.lang, r.post)
-Dang(r) == IF r.err THEN {} ELSE {d.kind : d \in Dangling(r.post) \cup BuilderDangling(r.post, r.builders)}
+\* records taken from the repository's own tests (hook H2) carry the schemas the chain was handed:
+\* the chain is only judged on references that resolved before it ran
+PreResolves(r) == IF "pre" \in DOMAIN r THEN AllRefsResolve(r.pre) ELSE TRUE
+Dang(r) == IF r.err \/ ~PreResolves(r) THEN {} ELSE {d.kind : d \in Dangling(r.post) \cup BuilderDangling(r.post, r.builders)}
 Bad(r)  == Clz(r) # {} \/ Dang(r) # {}
 
 Verdict == l = 1 \/ ~Bad(Step) \/
